@@ -116,6 +116,27 @@ def check_decode_string(s, out, stats):
         out.append(_viol('decode_non_exception', {'rep': s}, repr(e), 'decode_string'))
         return
     stats['decodes'] += 1
+    # a packet obtained by decoding is a packet: encoding it (either channel, any order) must give the
+    # canonical representation of its type and payload, not whatever form it happened to arrive in
+    if isinstance(p.data, (str, bytes, bytearray, dict, list)) or p.data is None:
+        if 0 <= p.packet_type <= 6 and not (isinstance(p.data, (bytes, bytearray)) and p.packet_type != 4):
+            for seq in ((False, True), (True, False)):
+                q = packet.Packet(encoded_packet=s)
+                for b64 in seq:
+                    try:
+                        want = codec.ref_encode(q.packet_type, q.data, b64)
+                        got = q.encode(b64=b64)
+                    except Exception as e:
+                        out.append(_viol('reencode_raised', {'rep': s, 'b64': b64}, repr(e), 'decode_then_encode'))
+                        break
+                    same = (isinstance(want, bytes) and isinstance(got, (bytes, bytearray)) and bytes(got) == want) or \
+                        (isinstance(want, str) and isinstance(got, str) and got == want)
+                    if not same:
+                        out.append(_viol('reencode_not_canonical', {'rep': s, 'b64': b64},
+                                         'decoded to type=%r data=%r; encode(b64=%s) returned %r, canonical %r'
+                                         % (q.packet_type, q.data, b64, got, want), 'decode_then_encode'))
+                        break
+                    stats['encodes'] += 1
     if p.binary and p.packet_type != 4:
         out.append(_viol('binary_non_message_decoded', {'rep': s},
                          'type=%r' % p.packet_type, 'decode_string'))
@@ -313,6 +334,7 @@ def run(ctx):
                 '%d-symbol adversarial alphabet, %d JSON look-alikes, %d JSON values, '
                 'all byte strings of length <= 2 and length 3 over 6 bytes (bytes and '
                 'bytearray), None; x both channel kinds; every raw string/bytes also fed '
+                '(and, when it decodes to an API payload, re-encoded on both channels in both orders and compared with the canonical form) '
                 'to the decoder as a representation (plain and prefixed 4/7/b); every '
                 'sequence of <= %d encode calls over {raw,b64,Payload.encode} on %d '
                 'representative packets. A case is non-trivial when its payload is '
